@@ -225,6 +225,8 @@ def run(chk):
         all_stops(chk, cases, beh, ci, DTYPES[ci % len(DTYPES)])
     shapes(chk, cases, grid, beh, rng, nk, nb)
     reused_buffers(chk, cases, beh)
+    from .. import apirules
+    apirules.run(chk, 'aes_stop', 'C05')
     single_ops(chk)
     recorded(chk, rng, 12 if q else 120)
     chk.sample({'key': cases[3]['key'], 'block': cases[3]['block'], 'state_after_round1_subbytes': beh[3]['enc'][4], 'ciphertext': beh[3]['enc'][-1]})
